@@ -213,6 +213,16 @@ pub fn c19(r: &mut Report) {
     cases.push(("required header twice, opaque bytes first", get("/m/items/1/2", vec![("x-foo", b"\xff".to_vec()), ("x-foo", b"5".to_vec()), ("x-plain", b"6".to_vec())]), Some(("INVALID_ARGUMENT", Some("fooBar")))));
     cases.push(("optional header twice, once as opaque bytes", get("/m/items/1/2", vec![("x-foo", b"5".to_vec()), ("x-plain", b"6".to_vec()), ("x-safe-opt", b"a".to_vec()), ("x-safe-opt", b"\xe9".to_vec())]), Some(("INVALID_ARGUMENT", Some("safeOpt")))));
     cases.push(("optional header repeated", get("/m/items/1/2", vec![("x-foo", b"5".to_vec()), ("x-plain", b"6".to_vec()), ("x-safe-opt", b"a".to_vec()), ("x-safe-opt", b"b".to_vec())]), Some(("INVALID_ARGUMENT", Some("safeOpt")))));
+    // present-but-empty values: undecodable for the integer arguments, fine for strings
+    cases.push(("query log_as empty", get("/m/items/1/2?q-key=", ok_headers()), Some(("INVALID_ARGUMENT", Some("qKey")))));
+    cases.push(("query log_as bare key", get("/m/items/1/2?q-key", ok_headers()), Some(("INVALID_ARGUMENT", Some("qKey")))));
+    cases.push(("query seq empty among values", get("/m/items/1/2?n=1&n=&n=3", ok_headers()), Some(("INVALID_ARGUMENT", Some("n")))));
+    cases.push(("query seq only empty", get("/m/items/1/2?n=", ok_headers()), Some(("INVALID_ARGUMENT", Some("n")))));
+    cases.push(("header log_as empty", get("/m/items/1/2", vec![("x-foo", b"".to_vec()), ("x-plain", b"6".to_vec())]), Some(("INVALID_ARGUMENT", Some("fooBar")))));
+    cases.push(("header default name empty", get("/m/items/1/2", vec![("x-foo", b"5".to_vec()), ("x-plain", b"".to_vec())]), Some(("INVALID_ARGUMENT", Some("plain")))));
+    cases.push(("path look-alike +5", get("/m/items/1/%2B-5", ok_headers()), Some(("INVALID_ARGUMENT", Some("count")))));
+    cases.push(("path look-alike 1.0", get("/m/items/1.0/2", ok_headers()), Some(("INVALID_ARGUMENT", Some("itemId")))));
+    cases.push(("unknown query keys are ignored", get("/m/items/1/2?zz=1&q-key=3&Q-KEY=x&n=4", ok_headers()), None));
     let post = |uri: &'static str, headers: Vec<(&'static str, Vec<u8>)>, body: &'static str| RawReq { method: Method::POST, uri, headers, body: body.as_bytes().to_vec() };
     let auth = || ("authorization", b"Bearer tok".to_vec());
     let json_ct = || ("content-type", b"application/json".to_vec());
@@ -221,6 +231,13 @@ pub fn c19(r: &mut Report) {
     cases.push(("auth wrong scheme", post("/m/body?s=a&u=b", vec![("authorization", b"Basic tok".to_vec()), json_ct()], "7"), Some(("PERMISSION_DENIED", None))));
     cases.push(("auth empty token", post("/m/body?s=a&u=b", vec![("authorization", b"Bearer ".to_vec()), json_ct()], "7"), Some(("PERMISSION_DENIED", None))));
     cases.push(("auth bad token", post("/m/body?s=a&u=b", vec![("authorization", b"Bearer a b".to_vec()), json_ct()], "7"), Some(("PERMISSION_DENIED", None))));
+    cases.push(("auth token with interior =", post("/m/body?s=a&u=b", vec![("authorization", b"Bearer abc=def".to_vec()), json_ct()], "7"), Some(("PERMISSION_DENIED", None))));
+    cases.push(("auth token only padding", post("/m/body?s=a&u=b", vec![("authorization", b"Bearer ==".to_vec()), json_ct()], "7"), Some(("PERMISSION_DENIED", None))));
+    cases.push(("auth lower-case scheme", post("/m/body?s=a&u=b", vec![("authorization", b"bearer tok".to_vec()), json_ct()], "7"), Some(("PERMISSION_DENIED", None))));
+    cases.push(("auth padded token", post("/m/body?s=a&u=b", vec![("authorization", b"Bearer YWJj==".to_vec()), json_ct()], "7"), None));
+    cases.push(("string query empty", post("/m/body?s=&u=", vec![auth(), json_ct()], "7"), None));
+    cases.push(("cookie token with interior =", post("/m/cookie", vec![("cookie", b"SID=user=admin".to_vec()), json_ct()], "\"s\""), Some(("PERMISSION_DENIED", None))));
+    cases.push(("cookie padded token", post("/m/cookie", vec![("cookie", b"SID=YWJj==".to_vec()), json_ct()], "\"s\""), None));
     cases.push(("query absent", post("/m/body?u=b", vec![auth(), json_ct()], "7"), Some(("INVALID_ARGUMENT", Some("s")))));
     cases.push(("query repeated", post("/m/body?s=a&s=a&u=b", vec![auth(), json_ct()], "7"), Some(("INVALID_ARGUMENT", Some("s")))));
     cases.push(("cookie valid", post("/m/cookie", vec![("cookie", b"SID=tok".to_vec()), json_ct()], "\"s\""), None));
